@@ -108,7 +108,8 @@ def temperature_maps(rep: Report, ev: Evaluator) -> None:
 
 def convert_order(rep: Report, prog: Program) -> None:
     """R10.3: within one hop the scale multiplication precedes the offset addition."""
-    fi = prog.func("conversions.convert")
+    from .c05 import plan_applier
+    fi, _acc = plan_applier(prog)
     fn = fi.node
     loops = [n for n in ast.walk(fn) if isinstance(n, ast.For) and isinstance(n.target, ast.Tuple) and len(n.target.elts) == 3
              and not any(isinstance(c, ast.For) for c in ast.walk(n) if c is not n)]
@@ -135,7 +136,7 @@ def convert_order(rep: Report, prog: Program) -> None:
     outer = [n for n in ast.walk(fn) if isinstance(n, ast.For) and any(isinstance(c, ast.For) for c in ast.walk(n) if c is not n)]
     for lp in outer:
         it = lp.iter
-        rep.check("R10.5", "conversions.convert:plan-iteration", isinstance(it, ast.Name),
+        rep.check("R10.5", "conversions.convert:plan-iteration", isinstance(it, ast.Name) or (isinstance(it, ast.Call) and ast.unparse(it.func) == "_plan_conversion"),
                   f"convert iterates `{ast.unparse(it)}`: the plan must be applied in its own order", fi.where(lp))
 
 
